@@ -230,11 +230,18 @@ class Schema:
         return False
 
     def add_schema(self, schema, root_path: DataPath):
-        for rule in schema.rules:
-            rule.path = root_path / rule.path
-            self.rules.append(rule)
-
-        self.rules = sorted(self.rules, key=lambda i: len(i.path))
+        # the added schema and its rules are left as they are: each rule is added as a
+        # new, re-rooted `Rule` (sharing the condition, which is never modified):
+        new_rules = [
+            Rule(
+                path=root_path / rule.path,
+                condition=rule.condition,
+                cast=copy.copy(rule.cast),
+                doc=copy.deepcopy(rule.doc),
+            )
+            for rule in schema.rules
+        ]
+        self.rules = sorted(self.rules + new_rules, key=lambda i: len(i.path))
 
     def to_json_like(self, *args, **kwargs):
         """Encode the rules into a JSON-compatible format.
